@@ -138,7 +138,7 @@ def tlc(spec_dir, module, cfg, workdir, workers=None, timeout=900, args=None, ja
     if java_opts:
         cmd += java_opts
     cmd += ["-cp", TLA_CP, "tlc2.TLC", "-metadir", md, "-config", cfg,
-            "-workers", str(workers or "auto")]
+            "-workers", str(workers or os.environ.get("VERIF_TLC_WORKERS", "8"))]
     if args:
         cmd += args
     cmd.append(module)
